@@ -1,6 +1,8 @@
 package main
 
 import (
+	"strings"
+
 	"golang.org/x/tools/go/ssa"
 )
 
@@ -48,6 +50,21 @@ func (fc *funcCtx) ghostOnSend(st *State, name string, x *ssa.Send) {
 		if v, ok := fc.val(st, x.X).(Sc); ok && v.S == SStr {
 			fc.oblige(st, "chan-elements", name+"/"+fc.site(x.Pos(), "send"), app("gs.ascii", v.T), "every value sent on "+name+" is ASCII text")
 		}
+	}
+	// `note chan-send <ch> <expr>`: every value sent on <ch> satisfies <expr> (written over `sent`,
+	// the parameters and the locals), an obligation at each send
+	for _, n := range fc.con.Notes {
+		pfx := "chan-send " + name + " "
+		if !strings.HasPrefix(n, pfx) {
+			continue
+		}
+		ex, err := ParseCExpr(strings.TrimPrefix(n, pfx))
+		if err != nil {
+			cfail("note chan-send: %v", err)
+		}
+		env := fc.localEnv(st, nil)
+		env.vars["sent"] = fc.val(st, x.X)
+		fc.oblige(st, "chan-send", name+"/"+fc.site(x.Pos(), "send"), fc.e.cevalBool(ex, env), "every value sent on "+name+" satisfies "+strings.TrimPrefix(n, pfx))
 	}
 	for _, n := range fc.con.Notes {
 		var ch, other string
